@@ -22,7 +22,7 @@ LEVEL_TEXT = ("Clouds of 10^4-10^6 particles are stepped 1-50 times by the real 
 LEVEL_NOTE = "Restated as bounded statistics: moments and independence only (no normality test). A 6-sigma band with 1e5 particles is +-2.7 % on the variance: false alarms at the 1e-8 level per test, factor-2/unit errors far outside."
 RULE = ("case = (D, Dz, dt, dx, dy, steps, cloud size, seed). Non-trivial: D > 0 or Dz > 0 with at least 2 steps (independence across steps observable); distinct by parameters.")
 MANDATORY = ["horizontal_variance_tests", "vertical_variance_tests", "mean_tests", "cross_covariance_tests", "lag1_tests", "neighbour_tests", "growth_tests",
-             "zero_diffusion_deterministic", "anisotropic_grid", "rng_seeded_by_harness"]
+             "zero_diffusion_deterministic", "anisotropic_grid", "rng_seeded_by_harness", "e2e_variance_tests"]
 ASSUMPTIONS = ["still water, uniform metric, no boundaries reached (grid and water column far larger than the cloud)"]
 TIMEOUT = {"quick": 900, "thorough": 3400}
 KSIG = 6.0
@@ -79,10 +79,54 @@ def gen_cases(tier: str, seed: int) -> list[dict[str, Any]]:
                           dy=dx * float(rng.choice([1.0, 1.0, 0.5, 2.5])), steps=int(rng.choice([1, 2, 5, 20, 50])),
                           n=int(rng.choice([10**4, 10**5, 3 * 10**5])) if tier == "quick" else int(rng.choice([10**4, 10**5, 10**6])),
                           advection=str(rng.choice(["", "EF"]))))
+    # end to end: ladim.main on a still-water ROMS file, rng seeded by the harness (hook on Tracker.__init__)
+    for i in range(6 if tier == "quick" else 200):
+        rng = C.rng_for(seed, 111, i)
+        dx = float(rng.choice([100.0, 800.0, 4000.0]))
+        dt = int(rng.choice([60, 600]))
+        cases.append(dict(kind="e2e", idx=10**5 + i, rngseed=int(seed * 7919 + i), D=float(rng.uniform(0.02, 0.6)) * dx * dx / (2 * dt), dt=dt, dx=dx,
+                          dy=dx * float(rng.choice([1.0, 0.8, 1.6])), steps=int(rng.integers(2, 6)), n=20000))
     return cases
 
 
+def run_e2e(case: dict[str, Any], wd: Path) -> dict[str, Any]:
+    from ladim.tracker import Tracker  # noqa: PLC0415
+
+    from vmon.hooks import Hooks  # noqa: PLC0415
+    from vmon.scenario import all_records, read_outputs, run_scenario  # noqa: PLC0415
+
+    D, dt, dx, dy, steps, n = case["D"], case["dt"], case["dx"], case["dy"], case["steps"], case["n"]
+    V: list = []
+    sit: dict[str, int] = {}
+    cnt: dict[str, int] = {}
+    w = C.still_world(C.T0, str(tadd(C.T0, dt * (steps + 1))), imax=60, jmax=60, N=2, metric=dict(kind="uniform", dx=dx, dy=dy))
+    run = dict(start=C.T0, stop=str(tadd(C.T0, dt * (steps + 1))), dt=dt, advection="EF", diffusion=D,
+               release=dict(columns=["release_time", "mult", "X", "Y", "Z"], rows=[[C.T0, n, 30.0, 30.0, 5.0]], header=True), output=dict(period=dt))
+    with Hooks() as hk:
+        hk.wrap(Tracker, "__init__", None, lambda tok, res, self, *a, **k: setattr(self, "rng", np.random.default_rng(case["rngseed"])))
+        res, conf, world = run_scenario(dict(world=w, run=run), wd)
+    desc = dict(kind="e2e", D=D, dt=dt, dx=dx, dy=dy, steps=steps, n=n, rngseed=case["rngseed"])
+    if not res.ok:
+        V.append(C.viol(f"end-to-end diffusion run did not complete: {res.exc}", tb=res.tb[-1200:], **desc))
+        return C.result(V, sit, cnt, nontrivial=True, key=str(desc), sample=desc)
+    recs = all_records(read_outputs(res.outputs))
+    for k, r in enumerate(recs[1:], start=1):
+        if len(r.pid) != n:
+            break  # somebody reached the boundary: the cloud is no longer a free random walk
+        for name, d in (("X", dx), ("Y", dy)):
+            x = np.asarray(r.vars[name]) - 30.0
+            s2 = 2 * D * dt * k / d**2
+            v = float(x.var(ddof=1))
+            sit["e2e_variance_tests"] = sit.get("e2e_variance_tests", 0) + 1
+            if abs(v - s2) > KSIG * s2 * np.sqrt(2.0 / (n - 1)) or abs(float(x.mean())) > KSIG * np.sqrt(s2 / n):
+                V.append(C.viol(f"end to end: after {k} steps the cloud has var({name}) = {v:.6g} cells^2 and mean {float(x.mean()):.3g}; a random walk with D = {D:.4g} gives {s2:.6g} "
+                                f"(ratio {v / s2:.4f})", **desc))
+    return C.result(V[:3], sit, cnt, nontrivial=True, key=str(desc), sample=dict(desc, records=len(recs)))
+
+
 def run_case(case: dict[str, Any], wd: Path) -> dict[str, Any]:
+    if case.get("kind") == "e2e":
+        return run_e2e(case, wd)
     from ladim.state import State  # noqa: PLC0415
     from ladim.timekeeper import TimeKeeper  # noqa: PLC0415
     from ladim.tracker import Tracker  # noqa: PLC0415
